@@ -732,21 +732,12 @@ class Prog:
         if self.op.peers:
             await asyncio.wait(self.op.peers)
 
-    def run(self) -> dict:
+    def prepare(self) -> None:
         ensure_repo_on_path()
-        import anyio
         if self.cell["a"].get("impl") == "adapter":
             self.op.make()               # outside any event loop: the *Adapter classes
-        with warnings.catch_warnings():
-            warnings.simplefilter("ignore", ResourceWarning)
-            if self.config in ("vstock", "veager"):
-                ctl = _IdleWait() if self.op.waits_for_thread else None
-                loop, _res, err = vloop.run(self.main, ctl, eager=self.config == "veager", max_handles=20000)
-                if err is not None:
-                    raise RuntimeError(f"cell did not run to its end on {self.config}: {err!r}") from err
-            else:
-                anyio.run(self.main, backend="asyncio",
-                          backend_options={"use_uvloop": self.config == "uvloop"})
+
+    def event(self) -> dict:
         o = self.obs
         after = {**o["after_now"], **o["late"]}
         if set(after) != set(self.before):
@@ -757,17 +748,63 @@ class Prog:
             ev["n"] = o["n"]
         return ev
 
+    def run(self) -> dict:
+        self.prepare()
+        import anyio
+        with warnings.catch_warnings():
+            warnings.simplefilter("ignore", ResourceWarning)
+            if self.config in ("vstock", "veager"):
+                ctl = _IdleWait() if self.op.waits_for_thread else None
+                loop, _res, err = vloop.run(self.main, ctl, eager=self.config == "veager", max_handles=20000)
+                if err is not None:
+                    raise RuntimeError(f"cell did not run to its end on {self.config}: {err!r}") from err
+            else:
+                anyio.run(self.main, backend="asyncio",
+                          backend_options={"use_uvloop": self.config == "uvloop"})
+        return self.event()
+
 
 def run_cell(cell: dict, config: str) -> dict:
     return Prog(cell, config).run()
 
 
+def run_shared(cells: list[dict], config: str) -> list[dict]:
+    """All cells of a batch on ONE loop started by anyio.run (a fresh uvloop per cell costs ~30 ms).
+
+    Every cell still is its own program with its own objects: its main() runs as its own task, one
+    after the other; that task is the cell's "root" task.
+    """
+    ensure_repo_on_path()
+    import anyio
+    progs = [Prog(c, config) for c in cells]
+    for p in progs:
+        p.prepare()
+
+    async def driver() -> None:
+        loop = asyncio.get_running_loop()
+        for p in progs:
+            t = loop.create_task(p.main())
+            await asyncio.wait([t])
+            if t.cancelled():
+                raise RuntimeError(f"cell program was cancelled: {p.cell}")
+            if t.exception() is not None:
+                raise RuntimeError(f"cell program failed: {p.cell}") from t.exception()
+
+    with warnings.catch_warnings():
+        warnings.simplefilter("ignore", ResourceWarning)
+        anyio.run(driver, backend="asyncio", backend_options={"use_uvloop": config == "uvloop"})
+    return [p.event() for p in progs]
+
+
 def run_batch(batch: dict, *, configs: list[str]) -> dict:
     """batch = {"cells": [{"i": index, "c": cell}, ...]} -> {"results": [{"i", "events": [...]}]}"""
-    out = []
-    for item in batch["cells"]:
-        events = []
-        for cfg in configs:
-            events.append(run_cell(item["c"], cfg))
-        out.append({"i": item["i"], "events": events})
-    return {"results": out}
+    per: dict[int, list[dict]] = {item["i"]: [] for item in batch["cells"]}
+    for cfg in configs:
+        if cfg == "uvloop":
+            evs = run_shared([item["c"] for item in batch["cells"]], cfg)
+            for item, ev in zip(batch["cells"], evs):
+                per[item["i"]].append(ev)
+        else:
+            for item in batch["cells"]:
+                per[item["i"]].append(run_cell(item["c"], cfg))
+    return {"results": [{"i": i, "events": evs} for i, evs in per.items()]}
